@@ -30,10 +30,14 @@ CLAIMS = {
          "for all wf a, b), per-key object equation, array equation, scalar-kind pairs give exactly the OneOf of the two, plus the from_sources corollaries. "
          "Correspondence: merger on all 103041 level-1 pairs and random related deep pairs in both orders, from_sources on pairs and wrapped pairs; oracle: "
          "laws re-evaluated on the implementation, order-insensitivity by witness documents validated by Sem.mem.", "6/C08"),
+ "C09": ("Theorems: add_twice (merger (merger a s) s = merger a s for EVERY well-formed accumulated shape a and every OneOf-free s without an Array<Null> node), "
+         "hence from_sources(h+[d]*(k+1)) = from_sources(h+[d]*k) for all k once d is the last source; repetitions never remove documents; a witness shows the hypothesis "
+         "cannot be dropped for arbitrary a. PARTIAL: the general clause (d anywhere in h; meaning unchanged) is decided by correspondence + oracle "
+         "(thousands of histories with d at random positions: syntactic stabilisation, constant Display length, meaning equality by validated witnesses).", "6/C09"),
  "C10": ("Six theorems prove reflexivity, optional widening, null-in-optional and the similar laws for ALL well-formed shapes; model tied to /repo by "
          "all 103041 level-1 pairs plus random deep related pairs; statements re-evaluated on the implementation's own answers.", "6/C10"),
 }
-PARTIAL = {}
+PARTIAL = {"C09": "Partial: the theorem covers the pairwise core and the 'd is the last source' case; semantic absorption for d in the middle of h is not a theorem."}
 
 def chk(pid):
     text, ref = CLAIMS[pid]
